@@ -133,7 +133,7 @@ def continue_coop(p, full, r, res, prefix_desc):
             ow = [b for b in pc.written if b[18] == 1]
             if ow:
                 po = parse_open_wire(ow[-1])
-                if po['version'] != 4 or po['hold'] != full['hold_time'] or po['asn'] != (full['local_as'] if full['local_as'] <= 65535 else 23456):
+                if po['version'] != 4 or po['hold'] != full['hold_time'] or po['asn'] != full['local_as']:
                     return ('open-parameters', 'the OPEN of the recovered session does not carry the configured parameters: %r' % (po,))
                 # ... and the same capabilities as the first OPEN the agent ever sent in this history
                 first = None
@@ -227,13 +227,14 @@ def random_prefix(r, conf, full, length):
 def run(seed, tier, driver):
     res = SuiteResult('heal')
     r = rng_for(seed, 'heal', tier)
-    confs = CONFIGS[:4] if tier == 'quick' else CONFIGS
+    confs = CONFIGS
     for ci, conf in enumerate(confs):
         full = dict(S.DEFAULT_CFG); full.update(conf)
         prefixes = adversarial_prefixes(r, conf, full, tier)
-        if tier == 'quick' and len(prefixes) > 120:
-            prefixes = prefixes[:60] + r.sample(prefixes[60:], 60)
-        nrand = 40 if tier == 'quick' else 1500
+        cap = 120 if ci < 3 else 50
+        if tier == 'quick' and len(prefixes) > cap:
+            prefixes = prefixes[:cap // 2] + r.sample(prefixes[cap // 2:], cap // 2)
+        nrand = (40 if ci < 3 else 15) if tier == 'quick' else 1500
         for _ in range(nrand):
             pre = random_prefix(r, conf, full, r.choice([5, 10, 20, 40]))
             if pre:
